@@ -398,7 +398,7 @@ PROPS["C08"] = {
         "'well-formed normalized program': sub tids and block tids identify a term (W1, W2), at most two jumps per block and every block tid a jump names "
         "exists (W3), positions unique (W4, global statement only). Trusted: shim/cfgbuild.rs (11 external_body: Index<NodeIndex> for DiGraph with 'node "
         "exists' as proved precondition, DiGraph::clone, node_indices, HashMap::get_mut on a present key, find(first Call), any(Return), keys().cloned()."
-        "collect(), LogMessage opaque, axiom_cfg_find_block), Program::find_block as @nobody, R9 substitutions (panic! -> requires-false call: an obligation, "
+        "collect(), LogMessage opaque), Program::find_block a VERIFIED body since round 4 (first block with the tid in key order / list order; the former axiom_cfg_find_block is the proved lemma_cfg_find_block_ok), R9 substitutions (panic! -> requires-false call: an obligation, "
         "not an assumption; slice patterns -> len tests; m[&k] -> m.get(&k).unwrap(); entry().and_modify().or_insert_with() -> contains_key / get_mut / insert "
         "with both closures verbatim; named ghost iterators), hypotheses obeys_key_model::<Tid>, ::<(Tid, Tid)>, obeys_cmp::<Tid>, and everything imported "
         "with callgraph_build (petgraph DiGraph as an edge sequence, u32 index bound). Node / edge ORDER only up to the unspecified BTreeMap order."),
@@ -410,12 +410,11 @@ PROPS["C08"] = {
         "closed-form edge multiset of the final graph (flattening of the per-round contributions); bounded twin c08.cfg",
         "node / edge order (BTreeMap iteration order unspecified)",
         "petgraph u32 capacity panics",
-        "body of Program::find_block (iterator chain; @nobody)",
         "ToJsonCompact, Display, HasCfg",
     ],
     "assumptions": [
-        "shim/cfgbuild.rs: 11 external_body items (DiGraph indexing / clone / node_indices, HashMap::get_mut on a present key, find(Call), any(Return), key set, LogMessage, axiom_cfg_find_block)",
-        "@nobody Program::find_block; alias Graph restated",
+        "shim/cfgbuild.rs: 10 external_body items (DiGraph indexing / clone / node_indices, HashMap::get_mut on a present key, find(Call), any(Return), key set, LogMessage)",
+        "R9 in Program::find_block: `subs.iter().flat_map(|(_, s)| A).find(|b| B)` -> nested for loops over the entries in key order and the blocks in list order with A and B verbatim, return at the first hit (std documentation of BTreeMap::iter / flat_map / find); alias Graph restated",
         "R9 substitutions of the unit header (panic! -> cfg_panic() requires false; slice patterns; map indexing; entry chain; ghost iterators; node_indices -> Vec)",
         "HYPOTHESES obeys_key_model::<Tid>(), obeys_key_model::<(Tid, Tid)>(), obeys_cmp::<Tid>()",
         "PRECONDITIONS W1-W4 (well-formed normalized program): unique sub / block tids, <= 2 jumps per block, named block tids exist, unique positions",
